@@ -15,6 +15,17 @@ import (
 // ---------------------------------------------------------------------------------------------
 // rendering an abstract class to bytes
 
+// genCtx: which login of which group is being generated (member-specific e-mails, tokens, codes;
+// claims correlated with the provider configuration)
+type genCtx struct {
+	cfg    providerCfg
+	member int
+}
+
+var cur genCtx
+
+func pickEmail(r *c.Rng) string { return fmt.Sprintf("m%d.%s", cur.member, r.Pick(emailPool)) }
+
 // rv is a field value to render: its intended class and one JSON text for it ("" = leave the key out)
 type rv struct {
 	class jv
@@ -148,9 +159,8 @@ func renderObject(r *c.Rng, fields []kv) []byte {
 		}
 		groups = append(groups, append(g, member{key, f.v.text}))
 	}
-	for i := r.Intn(3); i > 0; i-- {
-		groups = append(groups, []member{{r.Pick([]string{"token_type", "scope", "sub", "aud", "x", "id-token", "e mail", "emails", "accesstoken"}),
-			r.Pick([]string{`"Bearer"`, `1`, `null`, `{"a":[1,2,{"b":null}]}`, `[true,false]`, `"éé"`})}})
+	for _, e := range extraClaims(r) {
+		groups = append(groups, []member{{e[0], e[1]}})
 	}
 	r.Shuffle(len(groups), func(i, j int) { groups[i], groups[j] = groups[j], groups[i] })
 	var ms []member
@@ -175,6 +185,48 @@ func renderObject(r *c.Rng, fields []kv) []byte {
 	}
 	sb.WriteString(ws() + "}" + ws())
 	return []byte(sb.String())
+}
+
+// extraClaims: members the relying party does not read today (none folds onto a key it does read).
+// Standard OIDC / Google / Okta / Cognito claims, several e-mail-like and verified-like fields with
+// values that differ from the real ones, and `hd` / `aud` / `iss` values that do or do not agree
+// with the provider configuration in use.
+func extraClaims(r *c.Rng) [][2]string {
+	q := func(s string) string { b, _ := json.Marshal(s); return string(b) }
+	hd := cur.cfg.PC.GoogleProviderConfig.HostedDomain
+	cid := cur.cfg.PC.ClientConfig.ID
+	var out [][2]string
+	add := func(k, v string) { out = append(out, [2]string{k, v}) }
+	if cur.cfg.Type == "google" && r.Chance(0.6) {
+		switch {
+		case hd != "" && r.Chance(0.7):
+			add("hd", q([]string{hd, strings.ToLower(hd), strings.ToUpper(hd)}[r.Intn(3)]))
+		default:
+			add("hd", r.Pick([]string{`"evil.org"`, `"example.com"`, `"corp.example"`, `""`, `null`, `7`, `["example.com"]`, `"example.com.evil.org"`}))
+		}
+	}
+	pool := [][2]string{
+		{"aud", q(cid)}, {"aud", `"some-other-client"`}, {"aud", `["a","` + cid + `"]`},
+		{"azp", q(cid)}, {"iss", `"https://accounts.google.com"`}, {"iss", `"https://` + cur.cfg.PC.OktaProviderConfig.OrgURL + `/oauth2/` + cur.cfg.PC.OktaProviderConfig.ServerID + `"`},
+		{"iss", `"https://cognito-idp.` + cur.cfg.PC.AmazonCognitoProviderConfig.Region + `.amazonaws.com/` + cur.cfg.PC.AmazonCognitoProviderConfig.UserPoolID + `"`},
+		{"sub", `"1234567890"`}, {"sub", `"mallory@evil.org"`}, {"name", `"Mallory"`},
+		{"preferred_username", `"mallory@evil.org"`}, {"cognito:username", `"mallory"`}, {"cognito:username", `""`}, {"cognito:groups", `["admins"]`},
+		{"email_address", `"mallory@evil.org"`}, {"emails", `["mallory@evil.org"]`}, {"emails", `"mallory@evil.org"`}, {"upn", `"mallory@evil.org"`},
+		{"e mail", `"mallory@evil.org"`}, {"mail", `"mallory@evil.org"`}, {"login", `"mallory@evil.org"`},
+		{"verified_email", `true`}, {"emailVerified", `true`}, {"email-verified", `true`}, {"verified", `true`}, {"verified_email", `false`},
+		{"token_type", `"Bearer"`}, {"scope", q(cur.cfg.PC.Scope)}, {"id-token", `"a.b.c"`}, {"accesstoken", `"x"`},
+		{"exp", `1700000000`}, {"iat", `1.7e9`}, {"nonce", `null`}, {"at_hash", `"éé"`}, {"x", `{"a":[1,2,{"b":null}]}`}, {"amr", `[true,false]`},
+	}
+	seen := map[string]bool{"hd": true}
+	for i := r.Intn(5); i > 0; i-- {
+		e := pool[r.Intn(len(pool))]
+		if seen[e[0]] {
+			continue
+		}
+		seen[e[0]] = true
+		add(e[0], e[1])
+	}
+	return out
 }
 
 func pick64(r *c.Rng, l []int64) int64 { return l[r.Intn(len(l))] }
@@ -241,7 +293,7 @@ func payloadJSON(r *c.Rng) (string, string) {
 		f = append(f, kv{"email", rv{jv{Kind: "other"}, r.Pick([]string{`7`, `["a@b.c"]`, `{"v":"a@b.c"}`, `true`})}})
 		note = append(note, "email-illtyped")
 	default:
-		f = append(f, kv{"email", vStr(r, r.Pick(emailPool))})
+		f = append(f, kv{"email", vStr(r, pickEmail(r))})
 	}
 	switch r.Intn(14) {
 	case 0, 1:
@@ -357,7 +409,7 @@ func idToken(r *c.Rng) (string, string) {
 
 var statusPool = []int{201, 202, 204, 206, 301, 302, 304, 400, 400, 401, 403, 404, 429, 429, 500, 502, 503, 504}
 
-var accessPool = []string{"at-123", "ya29.a0Af_x-y", "tab\tinside", "é-non-ascii", " lead-and-trail "}
+var accessPool = []string{"at-m%d-123", "ya29.m%d.a0Af_x-y", "tab\tinside-m%d", "é-non-ascii-m%d", " lead-m%d-and-trail "}
 var badHeaderPool = []string{"ctl\x00zero", "line\nfeed", "cr\rhere", "del\x7f", "esc\x1b"}
 
 func genTok(r *c.Rng, prov string) (answerSpec, *tokClass, string) {
@@ -377,7 +429,7 @@ func genTok(r *c.Rng, prov string) (answerSpec, *tokClass, string) {
 		access = vStr(r, r.Pick(badHeaderPool))
 		note = append(note, "access-control-char")
 	default:
-		access = vStr(r, r.Pick(accessPool))
+		access = vStr(r, fmt.Sprintf(r.Pick(accessPool), cur.member))
 	}
 	switch r.Intn(20) {
 	case 0:
@@ -403,10 +455,7 @@ func genTok(r *c.Rng, prov string) (answerSpec, *tokClass, string) {
 		expires = vNum(pick64(r, []int64{3600, 1, 86400, 9223372036854775807, -9223372036854775808}))
 	}
 	tokNote := ""
-	k := r.Intn(16)
-	if prov != "google" && k < 3 {
-		k = 3 + r.Intn(13)
-	}
+	k := r.Intn(16) // the same id_token shapes for every provider: Okta and Cognito must not care
 	switch k {
 	case 0:
 		idt = vMissing(r)
@@ -459,7 +508,7 @@ func genUI(r *c.Rng, prov string) (answerSpec, *userClass, string) {
 		email = []rv{{jv{Kind: "strs", L: []string{"a@b.c"}}, `["a@b.c"]`}, {jv{Kind: "other"}, `{"v":"a@b.c"}`}, vNum(7), vBool(true)}[r.Intn(4)]
 		note = append(note, "email-illtyped")
 	default:
-		email = vStr(r, r.Pick(emailPool))
+		email = vStr(r, pickEmail(r))
 	}
 	switch r.Intn(10) {
 	case 0, 1:
@@ -519,12 +568,25 @@ func genUI(r *c.Rng, prov string) (answerSpec, *userClass, string) {
 	return a, intended, strings.Join(note, ",")
 }
 
-func gen(r *c.Rng) scenario {
-	sc := scenario{Prov: r.Pick([]string{"google", "google", "okta", "cognito"})}
-	sc.Code = r.Pick([]string{"code", "4/0AX4Xf-abc", "a b&c=d", "code", "code", "code", "code", "code", "code", "code", "code", "code", "code", "code", "code", "code", "code", "code", "code", "code", "code", "code", "code", "code", ""})
+var cfgByType = func() map[string][]int {
+	m := map[string][]int{}
+	for i, p := range cfgPool {
+		m[p.Type] = append(m[p.Type], i)
+	}
+	return m
+}()
+
+func genMember(r *c.Rng, cfg int, member int) scenario {
+	cur = genCtx{cfg: cfgPool[cfg], member: member}
+	prov := cfgPool[cfg].Type
+	var sc scenario
+	sc.Code = r.Pick([]string{"code", "4/0AX4Xf-abc", "a b&c=d", "code", "code", "code", "code", "code"}) + fmt.Sprintf("-m%d", member)
+	if r.Chance(0.04) {
+		sc.Code = ""
+	}
 	var n1, n2 string
-	sc.Tok, sc.TokIntended, n1 = genTok(r, sc.Prov)
-	sc.UI, sc.UIIntended, n2 = genUI(r, sc.Prov)
+	sc.Tok, sc.TokIntended, n1 = genTok(r, prov)
+	sc.UI, sc.UIIntended, n2 = genUI(r, prov)
 	if r.Chance(0.05) {
 		sc.ErrParam = true
 	}
@@ -533,6 +595,41 @@ func gen(r *c.Rng) scenario {
 	}
 	sc.Note = "tok{" + n1 + "} userinfo{" + n2 + "}"
 	return sc
+}
+
+// gen draws one group: a provider configuration, 1-4 logins in flight at once, a release order
+func gen(r *c.Rng) group {
+	for {
+		typ := r.Pick([]string{"google", "google", "okta", "cognito"})
+		ids := cfgByType[typ]
+		g := group{Cfg: ids[r.Intn(len(ids))]}
+		if r.Chance(0.3) {
+			g.Cfg = ids[0] // the default configuration of the type
+		}
+		k := 1
+		switch x := r.Intn(20); {
+		case x < 4:
+			k = 2
+		case x < 6:
+			k = 3
+		case x < 7:
+			k = 4
+		}
+		for i := 0; i < k; i++ {
+			m := genMember(r, g.Cfg, i)
+			if k > 1 && i > 0 && r.Chance(0.5) {
+				// several good logins at once are the interesting groups: bias towards usable answers
+				for t := 0; t < 3 && tokenKey(m) == ""; t++ {
+					m = genMember(r, g.Cfg, i)
+				}
+			}
+			g.Members = append(g.Members, m)
+		}
+		g.Order = r.Perm(k)
+		if wellFormed(g) {
+			return g
+		}
+	}
 }
 
 // ---------------------------------------------------------------------------------------------
@@ -555,19 +652,22 @@ func tokBody(idToken *string, access string) []byte {
 	return b
 }
 
-func corpus() []scenario {
+func corpus() []group {
 	raw := func(s string) string { return base64.RawURLEncoding.EncodeToString([]byte(s)) }
 	pad := func(s string) string { return base64.URLEncoding.EncodeToString([]byte(s)) }
 	good := payload("alice@example.com", "true")
 	okUI := answerSpec{Status: 200, Raw: []byte(`{"email":"alice@example.com","email_verified":true,"groups":["g1"],"username":"alice"}`)}
+	var provs []string
 	g := func(note string, tok answerSpec) scenario {
-		return scenario{Prov: "google", Code: "code", Tok: tok, UI: okUI, Note: "corpus: " + note}
+		provs = append(provs, "google")
+		return scenario{Code: "code", Tok: tok, UI: okUI, Note: "corpus: " + note}
 	}
 	gt := func(note, idt string) scenario {
 		return g(note, answerSpec{Status: 200, Raw: tokBody(&idt, "at")})
 	}
 	p := func(prov, note string, tok, ui answerSpec) scenario {
-		return scenario{Prov: prov, Code: "code", Tok: tok, UI: ui, Note: "corpus: " + note}
+		provs = append(provs, prov)
+		return scenario{Code: "code", Tok: tok, UI: ui, Note: "corpus: " + note}
 	}
 	okTok := answerSpec{Status: 200, Raw: tokBody(nil, "at")}
 	l := []scenario{
@@ -648,5 +748,99 @@ func corpus() []scenario {
 	s = gt("good token, empty code", "h."+raw(good)+".s")
 	s.Code = ""
 	l = append(l, s)
-	return l
+
+	dflt := map[string]int{"google": 0, "okta": 1, "cognito": 2}
+	var gs []group
+	for i, sc := range l {
+		gs = append(gs, group{Cfg: dflt[provs[i]], Members: []scenario{sc}})
+	}
+
+	// --- provider configuration: one accepted login under every configuration of the pool
+	login := func(i int, email, idt, userinfo string) scenario {
+		at := fmt.Sprintf("at-%d", i)
+		return scenario{Code: fmt.Sprintf("code-%d", i), Tok: answerSpec{Status: 200, Raw: tokBody(&idt, at)},
+			UI: answerSpec{Status: 200, Raw: []byte(userinfo)}, Note: "corpus: login of " + email}
+	}
+	ui := func(email, rest string) string {
+		e, _ := json.Marshal(email)
+		return `{"email":` + string(e) + rest + `}`
+	}
+	claims := func(email, rest string) string { return "h." + raw(ui(email, rest)) + ".s" }
+	for i, cfg := range cfgPool {
+		m := login(0, "alice@example.com", claims("alice@example.com", `,"email_verified":true,"hd":"example.com","aud":"client-id"`),
+			ui("alice@example.com", `,"email_verified":true,"username":"alice","groups":["g1"]`))
+		gs = append(gs, group{Cfg: i, Members: []scenario{m}, Note: "corpus: accepted under configuration " + cfg.PC.ProviderSlug})
+	}
+	// --- Google with a hosted domain configured (cfg 3: example.com, 4: corp.example, 5: EXAMPLE.COM):
+	// the unchanged code ignores `hd`; email_verified decides alone
+	for _, cfg := range []int{3, 4, 5} {
+		hd := cfgPool[cfg].PC.GoogleProviderConfig.HostedDomain
+		q, _ := json.Marshal(hd)
+		for j, rest := range []string{
+			`,"email_verified":false,"hd":` + string(q),
+			`,"hd":` + string(q),
+			`,"email_verified":null,"hd":` + string(q),
+			`,"email_verified":true,"hd":"evil.org"`,
+			`,"email_verified":true`,
+			`,"email_verified":false,"hd":"evil.org"`,
+			`,"hd":` + string(q) + `,"email_verified":"true"`,
+		} {
+			m := login(j, "ceo@corp.example", claims("ceo@corp.example", rest), `{}`)
+			m.Note = "corpus: hosted domain " + hd + " configured, payload " + rest
+			gs = append(gs, group{Cfg: cfg, Members: []scenario{m}})
+		}
+	}
+	// --- claims nobody should read
+	for _, cfg := range []int{0, 1, 2} {
+		decoy := `,"email_verified":true,"username":"u","preferred_username":"mallory@evil.org","cognito:username":"mallory","emails":["mallory@evil.org"],"email_address":"mallory@evil.org","sub":"mallory@evil.org","upn":"mallory@evil.org"`
+		m := login(0, "alice@example.com", claims("alice@example.com", decoy), ui("alice@example.com", decoy))
+		gs = append(gs, group{Cfg: cfg, Members: []scenario{m}, Note: "corpus: decoy e-mail-like claims"})
+		unv := `,"email_verified":false,"verified_email":true,"emailVerified":true,"verified":true`
+		m = login(1, "alice@example.com", claims("alice@example.com", unv), ui("alice@example.com", unv+`,"username":"u"`))
+		gs = append(gs, group{Cfg: cfg, Members: []scenario{m}, Note: "corpus: unverified, with verified-like decoys"})
+		// id_token shapes must not matter to Okta and Cognito
+		for j, idt := range []string{"nodots", "", "a.b", "..", "h." + raw(`{"cognito:username":"mallory","email":"mallory@evil.org","email_verified":true}`) + ".s", "h.!!!.s"} {
+			m = login(2+j, "alice@example.com", idt, ui("alice@example.com", `,"email_verified":true,"username":"u"`))
+			m.Note = fmt.Sprintf("corpus: id_token shape %q", idt)
+			gs = append(gs, group{Cfg: cfg, Members: []scenario{m}})
+		}
+	}
+	// --- concurrent logins: distinct people, every session must carry its OWN e-mail
+	people := []string{"alice@example.com", "bob@corp.example", "carol@example.org", "dave@d.example"}
+	for _, cfg := range []int{0, 1, 2, 8, 10, 3} {
+		for _, k := range []int{2, 3, 4} {
+			for _, order := range [][]int{nil, {3, 2, 1, 0}} {
+				g := group{Cfg: cfg, Note: fmt.Sprintf("corpus: %d people log in at once", k)}
+				for i := 0; i < k; i++ {
+					g.Members = append(g.Members, login(i, people[i],
+						claims(people[i], `,"email_verified":true`), ui(people[i], `,"email_verified":true,"username":"u"`)))
+				}
+				if order != nil {
+					for _, x := range order {
+						if x < k {
+							g.Order = append(g.Order, x)
+						}
+					}
+				}
+				gs = append(gs, g)
+			}
+		}
+	}
+	// one of several concurrent logins is bad: the others are unaffected
+	for _, cfg := range []int{0, 1, 2} {
+		g := group{Cfg: cfg, Note: "corpus: three at once, the middle one unverified / its userinfo failing"}
+		for i := 0; i < 3; i++ {
+			v := `,"email_verified":true,"username":"u"`
+			if i == 1 {
+				v = `,"email_verified":false`
+			}
+			m := login(i, people[i], claims(people[i], v), ui(people[i], v))
+			if i == 1 && cfg == 2 {
+				m.UI = answerSpec{Status: 500, Raw: []byte(`{}`)}
+			}
+			g.Members = append(g.Members, m)
+		}
+		gs = append(gs, g)
+	}
+	return gs
 }
